@@ -2,3 +2,4 @@
 pub mod names;
 pub mod msg;
 pub mod to_hickory;
+pub mod zones;
